@@ -171,3 +171,94 @@ class AddHook(Contract):
 
 
 CONTRACTS = [Apply(), Emit(), AddHook()]
+
+
+class StatusSetter(Contract):
+    """BaseResponse.status (setter): the status line handed to start_response is "<code> <reason>" with 100 <= code <= 999"""
+    props = ('C03',)
+    file = 'ombott/response.py'
+    qualname = 'BaseResponse.status@setter'
+    assumptions = ('_HTTP_STATUS_LINES maps a known code to "<code> <phrase>" (constant table, checked natively below); '
+                   'str.strip / str.split / int are library functions (uninterpreted, int partial)',)
+    expected_labels = ('post.int_status_gives_code_and_line', 'post.code_in_range', 'raise.only_value_error')
+
+    def pre(self, X):
+        self.kind = ('int', 'str')[X.choose(2, 'status given as int | str')]
+        self.code = X.fresh(z3.IntSort(), 'code')
+        self.text = X.fresh(StrSort, 'status_text')
+        self.known = X.choose(2, 'code in the table?') == 1
+        self.line = X.fresh(StrSort, 'table_line')
+        X.assume(z3.Length(self.line) > 0)
+        # the constant table of the real module: every entry is "<code> <phrase>" for its own code
+        table = X.globals.get('_HTTP_STATUS_LINES', {})
+        import re as _re
+        okt = bool(table) and all(isinstance(k, int) and isinstance(v, str) and _re.match(r'^%d \S.*$' % k, v) for k, v in table.items())
+        X.prove('table.every_line_is_code_space_phrase', z3.BoolVal(okt))
+        c = self
+
+        def table_get(X, args, kwargs):
+            X.prove('table.looked_up_by_code', args[-1].t == c.code)
+            return VStr(c.line) if c.known else NONE
+        self.stubs = {'_HTTP_STATUS_LINES.get': table_get}
+        self.me = VObj('Resp', {})
+        return {'self': self.me, 'status': VInt(self.code) if self.kind == 'int' else VStr(self.text)}
+
+    def method_hook(self, X, obj, name, args, kwargs):
+        if isinstance(obj, VStr) and name == 'strip' and not args:
+            return VStr(X.driver.uf('strip_ws', StrSort, StrSort)(obj.t))
+        if isinstance(obj, VStr) and name == 'split' and not args:
+            first = X.driver.uf('first_word', StrSort, StrSort)
+            return VList([VStr(first(obj.t))])
+        return None
+
+    def str_hook(self, X, a):
+        if isinstance(a, VStr):
+            return a
+        return None
+
+    def post(self, X, ret):
+        f = self.me.fields
+        code, line = f.get('_status_code'), f.get('_status_line')
+        ok = isinstance(code, VInt) and isinstance(line, VStr)
+        if not ok:
+            X.prove('post.sets_code_and_line', z3.BoolVal(False))
+            return
+        X.prove('post.code_in_range', z3.And(code.t >= 100, code.t <= 999))
+        if self.kind == 'int':
+            X.prove('post.int_status_gives_code_and_line',
+                    z3.And(code.t == self.code, z3.BoolVal(True) if not self.known else line.t == self.line))
+        else:
+            val = X.driver.uf('int_val_10_s', StrSort, z3.IntSort())
+            first = X.driver.uf('first_word', StrSort, StrSort)
+            strip = X.driver.uf('strip_ws', StrSort, StrSort)
+            X.prove('post.str_status_kept_with_its_leading_code',
+                    z3.And(code.t == val(first(strip(self.text))), z3.Or(line.t == strip(self.text), z3.Length(strip(self.text)) == 0)))
+
+    def post_raise(self, X, exc):
+        X.prove('raise.only_value_error', z3.BoolVal(exc.pyclass is ValueError))
+
+
+class CloseIter(Contract):
+    """_closeiter.close(): every attached close callback is called exactly once, in order"""
+    props = ('C03',)
+    file = 'ombott/ombott.py'
+    qualname = '_closeiter.close'
+    assumptions = ('a list comprehension over a list calls the element expression once per item, in order (Python semantics)',)
+    expected_labels = ('close.calls_every_callback_once',)
+
+    def pre(self, X):
+        return {'self': VObj('CloseIter', {'close_callbacks': VOpaque(X.fresh(PyObj, 'callbacks'), 'callbacks')})}
+
+    def genexp_hook(self, X, node):
+        try:
+            (g,) = node.generators
+            ok = (not g.ifs and isinstance(g.target, ast.Name) and isinstance(node.elt, ast.Call)
+                  and isinstance(node.elt.func, ast.Name) and node.elt.func.id == g.target.id and not node.elt.args
+                  and not node.elt.keywords and ast.unparse(g.iter) == 'self.close_callbacks')
+        except Exception:
+            ok = False
+        X.prove('close.calls_every_callback_once', z3.BoolVal(ok))
+        return VOpaque(X.fresh(PyObj, 'results'), 'list')
+
+
+CONTRACTS += [StatusSetter(), CloseIter()]
